@@ -63,6 +63,10 @@ def extract_model(m, inputs):
                 v = m.eval(payload, model_completion=True)
                 lst = _seq_to_list(v)
                 vals[name] = {"str_utf8": bytes(x % 256 for x in lst).hex() if lst is not None else None}
+            elif kind == "text":
+                v = m.eval(payload, model_completion=True)
+                lst = _seq_to_list(v)
+                vals[name] = {"text": [x % 128 for x in lst] if lst is not None else None}
             elif kind == "real":
                 v = m.eval(payload, model_completion=True)
                 try:
